@@ -8,7 +8,6 @@ from harness.pyval import enc, Unencodable, strict_eq, to_json, from_json
 ID = 'C41'
 TITLE = 'fetch_table queries return exactly the matching rows'
 PROPS = ['Props/C41']
-DISABLED = True
 RULE = ('documents built through the real engine (AddTable with Any/Text/Numeric/ChoiceList/Choice data columns, formula '
         'columns returning lists, tuples, tuples containing lists and a lookup count (creates virtual #lookup columns); '
         '0-9 rows of mixed-type values incl. 1/1.0/True, 0/0.0/False, strings, lists, nested lists, dicts; random row '
